@@ -293,6 +293,19 @@ pub fn c01_check(c: &Case, ctx: &mut Ctx) -> Result<(), Failure> {
     Ok(())
 }
 
+/// C01 for the ASan fuzz targets: one placement - an exactly sized heap allocation, whose red zones
+/// AddressSanitizer watches - and no transcripts (location independence is the business of the
+/// three-placement check above, which costs ~100x more under ASan).
+pub fn c01_check_asan(c: &Case, ctx: &mut Ctx) -> Result<(), Failure> {
+    let exact: Box<[u8]> = c.bytes.clone().into_boxed_slice();
+    let o = walk_all(&exact, &c.ranges, extra_et(c), false);
+    ctx.eval(1);
+    if let Some((name, what)) = &o.oob {
+        ctx.fail(Failure::new(format!("C01|{}|slice-outside-input", name), "returned slice lies inside the input", format!("placement exact-heap: {}", what), case_input(c)))?;
+    }
+    Ok(())
+}
+
 fn first_diff(a: &str, b: &str) -> (String, String) {
     let mut ia = a.lines();
     let mut ib = b.lines();
@@ -314,7 +327,7 @@ impl Property for C01 {
     }
     fn post(&self, tier: Tier, seed: u64, root: &std::path::Path) -> Result<Value, Failure> {
         if tier == Tier::Thorough {
-            crate::fuzzapi::run_fuzz_campaign("C01", root, seed, 40_000, 8)
+            crate::fuzzapi::run_fuzz_campaign("C01", root, seed, 20_000, 8)
         } else {
             Ok(Value::Null)
         }
@@ -387,7 +400,7 @@ impl Property for C02 {
     }
     fn post(&self, tier: Tier, seed: u64, root: &std::path::Path) -> Result<Value, Failure> {
         if tier == Tier::Thorough {
-            crate::fuzzapi::run_fuzz_campaign("C02", root, seed, 120_000, 8)
+            crate::fuzzapi::run_fuzz_campaign("C02", root, seed, 20_000, 8)
         } else {
             Ok(Value::Null)
         }
